@@ -169,49 +169,22 @@ Qed.
 
 (* ---- InformerMap.Set and the constructor loops ------------------------------------ *)
 
-Lemma imap_set_le : forall k r m,
-  cnt k (imap_set r m) <= cnt k m + (if String.eqb k r then 1 else 0).
-Proof.
-  intros k r m. unfold imap_set. destruct (memb r m); [lia|]. rewrite cnt_app. simpl. lia.
-Qed.
-
 Lemma imap_set_eq : forall k r m, memb r m = false ->
   cnt k (imap_set r m) = cnt k m + (if String.eqb k r then 1 else 0).
 Proof.
   intros k r m M. unfold imap_set. rewrite M, cnt_app. simpl. lia.
 Qed.
 
-Lemma open_informers_le : forall rs m f f' m' ok,
+(* a resource already in the map is skipped, so the map holds exactly what was acquired *)
+Lemma open_informers_cnt : forall rs m f f' m' ok,
   open_informers rs m f = (f', m', ok) ->
-  forall k, cnt k f <= cnt k f' /\ cnt k m' + cnt k f <= cnt k m + cnt k f'.
+  forall k, cnt k m' + cnt k f = cnt k m + cnt k f'.
 Proof.
   induction rs as [|r rs IH]; simpl; intros m f f' m' ok H k.
   - inversion H; subst. lia.
-  - destruct (can_subscribe f r).
-    + destruct (IH _ _ _ _ _ H k) as [A B]. unfold acquire in A, B. simpl in A, B.
-      pose proof (imap_set_le k (ru_key r) m). lia.
-    + inversion H; subst. lia.
-Qed.
-
-(* when no resource is named twice every subscription is kept in the map *)
-Lemma open_informers_eq : forall rs m f f' m' ok,
-  open_informers rs m f = (f', m', ok) ->
-  nodupb (map ru_key rs) = true ->
-  (forall k, 0 < cnt k (map ru_key rs) -> cnt k m = 0) ->
-  forall k, cnt k m' + cnt k f = cnt k m + cnt k f'.
-Proof.
-  induction rs as [|r rs IH]; simpl; intros m f f' m' ok H D Z k.
-  - inversion H; subst. lia.
-  - destruct (can_subscribe f r).
-    + apply andb_true_iff in D. destruct D as [D1 D2]. apply negb_true_iff in D1.
-      assert (M : memb (ru_key r) m = false).
-      { destruct (memb (ru_key r) m) eqn:M; [|reflexivity]. apply memb_true_cnt in M.
-        specialize (Z (ru_key r)). rewrite String.eqb_refl in Z. lia. }
-      assert (Z' : forall k0, 0 < cnt k0 (map ru_key rs) -> cnt k0 (imap_set (ru_key r) m) = 0).
-      { intros k0 P. rewrite (imap_set_eq _ _ _ M). destruct (String.eqb k0 (ru_key r)) eqn:E.
-        - apply String.eqb_eq in E. subst. rewrite (memb_false_cnt _ _ D1) in P. lia.
-        - specialize (Z k0). rewrite E in Z. lia. }
-      pose proof (IH _ _ _ _ _ H D2 Z' k) as B. unfold acquire in B. simpl in B.
+  - destruct (memb (ru_key r) m) eqn:M; [exact (IH _ _ _ _ _ H k)|].
+    destruct (can_subscribe f r).
+    + pose proof (IH _ _ _ _ _ H k) as B. unfold acquire in B. simpl in B.
       rewrite (imap_set_eq _ _ _ M) in B. lia.
     + inversion H; subst. lia.
 Qed.
@@ -367,45 +340,38 @@ Proof.
   destruct (new_hook h); simpl; congruence.
 Qed.
 
-(* what every call of a constructor guarantees, on any factory *)
+(* what every call of a constructor guarantees, on any factory: no panic, and the
+   factory has gained exactly the subscriptions of the instance handed out *)
 Definition start_post (s : spec) (f : factory) (out : factory * res inst) : Prop :=
   snd out <> Panic /\
-  (forall k, cnt k f <= cnt k (fst out)) /\
-  (forall i, snd out = Ok i ->
-     i_spec i = s /\ i_related i = [] /\ forall k, cnt k (i_subs i) + cnt k f <= cnt k (fst out)) /\
-  (spec_distinctb s = true ->
-     forall k, cnt k (fst out) = cnt k f + match snd out with Ok i => cnt k (i_subs i) | _ => 0 end).
+  (forall i, snd out = Ok i -> i_spec i = s /\ i_related i = []) /\
+  (forall k, cnt k (fst out) = cnt k f + match snd out with Ok i => cnt k (i_subs i) | _ => 0 end).
 
 Lemma post_same : forall s f, start_post s f (f, Err).
 Proof.
-  intros s f. unfold start_post. simpl. split; [discriminate|]. split; [auto|].
-  split; [discriminate|]. intros _ k. lia.
+  intros s f. unfold start_post. simpl. split; [discriminate|]. split; [discriminate|].
+  intro k. lia.
 Qed.
 
 Lemma post_fail_closing : forall s f held f2,
-  (forall k, cnt k held + cnt k f <= cnt k f2) ->
-  (spec_distinctb s = true -> forall k, cnt k held + cnt k f = cnt k f2) ->
+  (forall k, cnt k held + cnt k f = cnt k f2) ->
   start_post s f (fail_closing held f2).
 Proof.
-  intros s f held f2 L E. unfold fail_closing.
+  intros s f held f2 E. unfold fail_closing.
   destruct (release_all_ex held f2) as [g Hg].
-  { intro k. specialize (L k). lia. }
+  { intro k. specialize (E k). lia. }
   rewrite Hg. pose proof (release_all_cnt _ _ _ Hg) as C. unfold start_post. simpl.
-  split; [discriminate|]. split.
-  { intro k. specialize (C k). specialize (L k). lia. }
-  split; [discriminate|]. intros D k. specialize (C k). specialize (E D k). lia.
+  split; [discriminate|]. split; [discriminate|].
+  intro k. specialize (C k). specialize (E k). lia.
 Qed.
 
 Lemma post_ok : forall s f held f2,
-  (forall k, cnt k held + cnt k f <= cnt k f2) ->
-  (spec_distinctb s = true -> forall k, cnt k held + cnt k f = cnt k f2) ->
+  (forall k, cnt k held + cnt k f = cnt k f2) ->
   start_post s f (f2, Ok (mkInst s held [])).
 Proof.
-  intros s f held f2 L E. unfold start_post. simpl. split; [discriminate|]. split.
-  { intro k. specialize (L k). lia. }
-  split.
+  intros s f held f2 E. unfold start_post. simpl. split; [discriminate|]. split.
   { intros i Hi. inversion Hi; subst. simpl. auto. }
-  intros D k. specialize (E D k). lia.
+  intro k. specialize (E k). lia.
 Qed.
 
 Lemma start_composite_post : forall s f, start_post s f (start_composite s f).
@@ -417,17 +383,10 @@ Proof.
   destruct (negb (can_subscribe f p)); [apply post_same|].
   cbv zeta.
   destruct (open_informers (s_children s) [] (acquire (ru_key p) f)) as [[f2 kids] ok] eqn:Eo.
-  pose proof (open_informers_le _ _ _ _ _ _ Eo) as Hle.
-  assert (L : forall k, cnt k (kids ++ [ru_key p])%list + cnt k f <= cnt k f2).
-  { intro k. destruct (Hle k) as [_ B]. unfold acquire in B. simpl in B.
-    rewrite cnt_app. simpl. lia. }
-  assert (E : spec_distinctb s = true ->
-              forall k, cnt k (kids ++ [ru_key p])%list + cnt k f = cnt k f2).
-  { intros D k. unfold spec_distinctb in D. apply andb_true_iff in D. destruct D as [_ D].
-    assert (B : cnt k kids + cnt k (acquire (ru_key p) f) = cnt k [] + cnt k f2).
-    { apply (open_informers_eq _ _ _ _ _ _ Eo D). intros k0 _. reflexivity. }
+  assert (E : forall k, cnt k (kids ++ [ru_key p])%list + cnt k f = cnt k f2).
+  { intro k. pose proof (open_informers_cnt _ _ _ _ _ _ Eo k) as B.
     unfold acquire in B. simpl in B. rewrite cnt_app. simpl. lia. }
-  pose proof (post_fail_closing s f _ f2 L E) as HF.
+  pose proof (post_fail_closing s f _ f2 E) as HF.
   destruct ok; simpl; [|exact HF].
   destruct (s_hooks s) as [h|]; [|exact HF].
   rewrite !hook_panics_false.
@@ -449,25 +408,13 @@ Proof.
   destruct (existsb _ (s_parents s)); [apply post_same|].
   destruct (existsb strategy_unknown (s_children s)); [apply post_same|].
   destruct (open_informers (s_parents s) [] f) as [[f1 pars] ok1] eqn:Eo1.
-  pose proof (open_informers_le _ _ _ _ _ _ Eo1) as Hle1.
-  assert (E1 : spec_distinctb s = true -> forall k, cnt k pars + cnt k f = cnt k f1).
-  { intros D k. unfold spec_distinctb in D. apply andb_true_iff in D. destruct D as [D _].
-    assert (B : cnt k pars + cnt k f = cnt k [] + cnt k f1).
-    { apply (open_informers_eq _ _ _ _ _ _ Eo1 D). intros k0 _. reflexivity. }
-    simpl in B. lia. }
-  destruct ok1; simpl.
-  2:{ apply post_fail_closing; [|exact E1]. intro k. destruct (Hle1 k) as [_ B]. simpl in B. lia. }
+  assert (E1 : forall k, cnt k pars + cnt k f = cnt k f1).
+  { intro k. pose proof (open_informers_cnt _ _ _ _ _ _ Eo1 k) as B. simpl in B. lia. }
+  destruct ok1; simpl; [|apply post_fail_closing; exact E1].
   destruct (open_informers (s_children s) [] f1) as [[f2 kids] ok2] eqn:Eo2.
-  pose proof (open_informers_le _ _ _ _ _ _ Eo2) as Hle2.
-  assert (L : forall k, cnt k (kids ++ pars)%list + cnt k f <= cnt k f2).
-  { intro k. destruct (Hle1 k) as [_ B1]. destruct (Hle2 k) as [_ B2]. simpl in B1, B2.
-    rewrite cnt_app. lia. }
-  assert (E : spec_distinctb s = true -> forall k, cnt k (kids ++ pars)%list + cnt k f = cnt k f2).
-  { intros D k. specialize (E1 D k).
-    unfold spec_distinctb in D. apply andb_true_iff in D. destruct D as [_ D].
-    assert (B : cnt k kids + cnt k f1 = cnt k [] + cnt k f2).
-    { apply (open_informers_eq _ _ _ _ _ _ Eo2 D). intros k0 _. reflexivity. }
-    simpl in B. rewrite cnt_app. lia. }
+  assert (E : forall k, cnt k (kids ++ pars)%list + cnt k f = cnt k f2).
+  { intro k. pose proof (open_informers_cnt _ _ _ _ _ _ Eo2 k) as B. simpl in B.
+    specialize (E1 k). rewrite cnt_app. lia. }
   destruct ok2; simpl; [apply post_ok|apply post_fail_closing]; assumption.
 Qed.
 
@@ -477,19 +424,13 @@ Proof. intros [|] s f; [apply start_composite_post|apply start_decorator_post]. 
 (* ================================================================== *)
 (* 4. the invariant of the reconcile loop                               *)
 
-(* one entry per name; every subscription held by an instance is counted *)
+(* one entry per name; refCount[k] is the number of subscriptions to k held by instances *)
 Definition Inv (st : state) : Prop :=
   (forall n, cnt_name n (insts st) <= 1) /\
-  (forall k, cnt k (subs_of (insts st)) <= cnt k (refs st)).
+  (forall k, cnt k (refs st) = cnt k (subs_of (insts st))).
 
-(* ... and nothing else is counted *)
-Definition Bal (st : state) : Prop :=
-  forall k, cnt k (refs st) = cnt k (subs_of (insts st)).
-
-(* a transition from a state satisfying Inv: Inv again, no panic, and balance
-   is carried over from st0 when d holds *)
-Definition pres (st0 : state) (d : bool) (r : step_result) : Prop :=
-  Inv (state_of r) /\ outcome_of r <> RPanic /\ (d = true -> Bal st0 -> Bal (state_of r)).
+(* a transition: the invariant again, and no panic *)
+Definition pres (r : step_result) : Prop := Inv (state_of r) /\ outcome_of r <> RPanic.
 
 (* expose the components of a concrete step result *)
 Ltac unf := unfold state_of, outcome_of, actions_of in *.
@@ -497,81 +438,154 @@ Ltac unf := unfold state_of, outcome_of, actions_of in *.
 Lemma Inv_init : Inv init.
 Proof. split; intros; simpl; lia. Qed.
 
-Lemma Bal_init : Bal init.
-Proof. intro k. reflexivity. Qed.
-
-Lemma pres_same : forall st d o a, Inv st -> o <> RPanic -> pres st d (st, o, a).
-Proof. intros st d o a I O. unfold pres. simpl. auto. Qed.
+Lemma pres_same : forall st o a, Inv st -> o <> RPanic -> pres (st, o, a).
+Proof. intros st o a I O. unfold pres. unf. simpl. auto. Qed.
 
 Lemma stop_mid : forall st n i, Inv st -> ifind n (insts st) = Some i ->
   exists f, stop i (refs st) = Some f /\
     (forall k, cnt k f + cnt k (inst_subs i) = cnt k (refs st)) /\
-    Inv (mkState (iremove n (insts st)) f) /\
-    (Bal st -> Bal (mkState (iremove n (insts st)) f)).
+    Inv (mkState (iremove n (insts st)) f).
 Proof.
-  intros st n i [U L] F. pose proof (subs_split _ _ _ U F) as S.
+  intros st n i [U B] F. pose proof (subs_split _ _ _ U F) as S.
   destruct (release_all_ex (inst_subs i) (refs st)) as [f Hf].
-  { intro k. specialize (S k). specialize (L k). lia. }
+  { intro k. specialize (S k). specialize (B k). lia. }
   exists f. pose proof (release_all_cnt _ _ _ Hf) as C.
-  split; [exact Hf|]. split; [exact C|]. split.
-  - split; simpl.
-    + intro n'. rewrite cnt_name_iremove. destruct (String.eqb n' n); [lia|apply U].
-    + intro k. specialize (S k). specialize (L k). specialize (C k). lia.
-  - intros B k. simpl. specialize (S k). specialize (C k). specialize (B k). lia.
+  split; [exact Hf|]. split; [exact C|]. split; simpl.
+  - intro n'. rewrite cnt_name_iremove. destruct (String.eqb n' n); [lia|apply U].
+  - intro k. specialize (S k). specialize (B k). specialize (C k). lia.
 Qed.
 
-Lemma start_into_pres : forall fl n s st0 st acts,
-  Inv st -> ifind n (insts st) = None -> (Bal st0 -> Bal st) ->
-  pres st0 (spec_distinctb s) (start_into fl n s st acts).
+Lemma start_into_pres : forall fl n s st acts,
+  Inv st -> ifind n (insts st) = None -> pres (start_into fl n s st acts).
 Proof.
-  intros fl n s st0 st acts [U L] F B0. unfold start_into.
-  destruct (start_post_holds fl s (refs st)) as [P1 [P2 [P3 P4]]].
-  destruct (start fl s (refs st)) as [g [i| |]]; unfold pres, Inv, Bal; unf; simpl in *.
-  - destruct (P3 i eq_refl) as [_ [Hr Hc]].
-    assert (SI : forall k, cnt k (subs_of (iset n i (insts st)))
-                           = cnt k (subs_of (insts st)) + cnt k (i_subs i)).
-    { intro k. rewrite subs_iset, (ifind_none_iremove _ _ F). unfold inst_subs.
-      rewrite Hr, app_nil_r. reflexivity. }
-    split; [split|split].
+  intros fl n s st acts [U B] F. unfold start_into.
+  destruct (start_post_holds fl s (refs st)) as [P1 [P3 P4]].
+  destruct (start fl s (refs st)) as [g [i| |]]; unfold pres, Inv; unf; simpl in *.
+  - destruct (P3 i eq_refl) as [_ Hr]. split; [split|discriminate].
     + intro n'. rewrite cnt_name_iset. destruct (String.eqb n' n); [lia|apply U].
-    + intro k. rewrite SI. specialize (Hc k). specialize (L k). lia.
-    + discriminate.
-    + intros D B k. rewrite SI, (P4 D k), (B0 B k). reflexivity.
-  - split; [split|split].
-    + exact U.
-    + intro k. specialize (L k). specialize (P2 k). lia.
-    + discriminate.
-    + intros D B k. rewrite (P4 D k), (B0 B k). lia.
+    + intro k. rewrite subs_iset, (ifind_none_iremove _ _ F), (P4 k), (B k). unfold inst_subs.
+      rewrite Hr, app_nil_r. reflexivity.
+  - split; [split|discriminate]; [exact U|]. intro k. rewrite (P4 k), (B k). lia.
   - exfalso. apply P1. reflexivity.
 Qed.
 
-Lemma reconcile_controller_pres : forall fl n s st, Inv st ->
-  pres st (spec_distinctb s) (reconcile_controller fl n s st).
+(* ---- stopIfSpecChanged ---------------------------------------------------------------- *)
+
+Lemma sic_cases : forall n s st st1 acts, stop_if_changed n s st = Some (st1, acts) ->
+  (st1 = st /\ acts = [] /\ ifind n (insts st) = None) \/
+  (st1 = st /\ acts = [] /\ exists i, ifind n (insts st) = Some i /\ spec_eqb s (i_spec i) = true) \/
+  (exists i f, ifind n (insts st) = Some i /\ spec_eqb s (i_spec i) = false /\
+               stop i (refs st) = Some f /\
+               st1 = mkState (iremove n (insts st)) f /\ acts = [Stopped n (s_id (i_spec i))]).
 Proof.
-  intros fl n s st I. unfold reconcile_controller.
+  intros n s st st1 acts H. unfold stop_if_changed in H.
   destruct (ifind n (insts st)) as [i|] eqn:F.
-  - destruct (spec_eqb s (i_spec i)).
-    + apply pres_same; [exact I|discriminate].
-    + destruct (stop_mid _ _ _ I F) as [f [Hf [_ [I' B']]]]. rewrite Hf.
-      apply start_into_pres; [exact I'|apply ifind_iremove_same|exact B'].
-  - apply start_into_pres; auto.
+  - destruct (spec_eqb s (i_spec i)) eqn:E.
+    + inversion H; subst. right. left. eauto.
+    + destruct (stop i (refs st)) as [f|] eqn:Hf; [|discriminate]. inversion H; subst.
+      right. right. exists i, f. auto.
+  - inversion H; subst. left. auto.
 Qed.
 
-Lemma reconcile_pres : forall fl n l st, Inv st ->
-  pres st (event_distinctb (Reconcile n l)) (reconcile fl n l st).
+Lemma sic_absent : forall n s st, ifind n (insts st) = None -> stop_if_changed n s st = Some (st, []).
+Proof. intros n s st F. unfold stop_if_changed. rewrite F. reflexivity. Qed.
+
+Lemma sic_equal : forall n s st i, ifind n (insts st) = Some i -> spec_eqb s (i_spec i) = true ->
+  stop_if_changed n s st = Some (st, []).
+Proof. intros n s st i F E. unfold stop_if_changed. rewrite F, E. reflexivity. Qed.
+
+Lemma sic_changed : forall n s st i f, ifind n (insts st) = Some i -> spec_eqb s (i_spec i) = false ->
+  stop i (refs st) = Some f ->
+  stop_if_changed n s st = Some (mkState (iremove n (insts st)) f, [Stopped n (s_id (i_spec i))]).
+Proof. intros n s st i f F E Hf. unfold stop_if_changed. rewrite F, E, Hf. reflexivity. Qed.
+
+(* a second call finds nothing to do *)
+Lemma sic_idem : forall n s st st1 acts, stop_if_changed n s st = Some (st1, acts) ->
+  stop_if_changed n s st1 = Some (st1, []).
 Proof.
-  intros fl n l st I. destruct l as [| |s crd]; simpl.
-  - destruct (ifind n (insts st)) as [i|] eqn:F.
-    + destruct (stop_mid _ _ _ I F) as [f [Hf [_ [I' B']]]]. rewrite Hf. unfold pres. unf. simpl.
-      split; [exact I'|]. split; [discriminate|]. intros _. exact B'.
+  intros n s st st1 acts H.
+  destruct (sic_cases _ _ _ _ _ H) as [[-> [_ F]]|[[-> [_ [i [F E]]]]|[i [f [_ [_ [_ [-> _]]]]]]]].
+  - apply sic_absent. exact F.
+  - apply (sic_equal _ _ _ _ F E).
+  - apply sic_absent. simpl. apply ifind_iremove_same.
+Qed.
+
+Lemma sic_follows : forall n s st st1 acts, stop_if_changed n s st = Some (st1, acts) ->
+  follows_specb n s st1 = true.
+Proof.
+  intros n s st st1 acts H. unfold follows_specb.
+  destruct (sic_cases _ _ _ _ _ H) as [[-> [_ F]]|[[-> [_ [i [F E]]]]|[i [f [_ [_ [_ [-> _]]]]]]]].
+  - rewrite F. reflexivity.
+  - rewrite F. apply spec_eqb_sym. exact E.
+  - simpl. rewrite ifind_iremove_same. reflexivity.
+Qed.
+
+Lemma sic_some : forall n s st, Inv st ->
+  exists st1 acts, stop_if_changed n s st = Some (st1, acts) /\ Inv st1.
+Proof.
+  intros n s st I. unfold stop_if_changed. destruct (ifind n (insts st)) as [i|] eqn:F.
+  - destruct (spec_eqb s (i_spec i)); [eauto|].
+    destruct (stop_mid _ _ _ I F) as [f [Hf [_ I']]]. rewrite Hf. eauto.
+  - eauto.
+Qed.
+
+(* ---- the step on a found spec, in terms of stop_if_changed ------------------------------- *)
+
+Lemma step_sic_none : forall fl st n s crd, stop_if_changed n s st = None ->
+  step fl st (Reconcile n (LFound s crd)) = (st, RPanic, []).
+Proof.
+  intros [|] st n s crd H; simpl; [|unfold reconcile_controller]; rewrite H; reflexivity.
+Qed.
+
+Lemma step_passes : forall fl st n s crd st1 acts, crd_passesb fl crd = true ->
+  stop_if_changed n s st = Some (st1, acts) ->
+  step fl st (Reconcile n (LFound s crd)) =
+    match ifind n (insts st1) with
+    | Some _ => (st1, ROk, acts)
+    | None => start_into fl n s st1 acts
+    end.
+Proof.
+  intros [|] st n s crd st1 acts C H.
+  - destruct crd; try discriminate. simpl. rewrite H. unfold reconcile_controller.
+    rewrite (sic_idem _ _ _ _ _ H). destruct (ifind n (insts st1)).
+    + rewrite app_nil_r. reflexivity.
+    + unfold start_into. destruct (start Composite s (refs st1)) as [g [i| |]]; simpl;
+        rewrite ?app_nil_r; reflexivity.
+  - simpl. unfold reconcile_controller. rewrite H. reflexivity.
+Qed.
+
+Lemma step_blocked : forall fl st n s crd st1 acts, crd_passesb fl crd = false ->
+  stop_if_changed n s st = Some (st1, acts) ->
+  exists o, step fl st (Reconcile n (LFound s crd)) = (st1, o, acts) /\ o <> RPanic.
+Proof.
+  intros [|] st n s [| | |] st1 acts C H; try discriminate; simpl; rewrite H; eexists;
+    (split; [reflexivity|discriminate]).
+Qed.
+
+(* ---- every event preserves the invariant and does not panic ------------------------------ *)
+
+Lemma found_pres : forall fl n s crd st, Inv st -> pres (step fl st (Reconcile n (LFound s crd))).
+Proof.
+  intros fl n s crd st I. destruct (sic_some n s st I) as [st1 [acts [H I1]]].
+  destruct (crd_passesb fl crd) eqn:C.
+  - rewrite (step_passes _ _ _ _ _ _ _ C H). destruct (ifind n (insts st1)) eqn:F1.
+    + apply pres_same; [exact I1|discriminate].
+    + apply start_into_pres; assumption.
+  - destruct (step_blocked _ _ _ _ _ _ _ C H) as [o [E O]]. rewrite E. apply pres_same; assumption.
+Qed.
+
+Lemma reconcile_pres : forall fl n l st, Inv st -> pres (reconcile fl n l st).
+Proof.
+  intros fl n l st I. destruct l as [| |s crd].
+  - simpl. destruct (ifind n (insts st)) as [i|] eqn:F.
+    + destruct (stop_mid _ _ _ I F) as [f [Hf [_ I']]]. rewrite Hf.
+      apply pres_same; [exact I'|discriminate].
     + apply pres_same; [exact I|discriminate].
   - apply pres_same; [exact I|discriminate].
-  - destruct fl; [destruct crd|];
-      try (apply pres_same; [exact I|discriminate]);
-      apply reconcile_controller_pres; exact I.
+  - apply (found_pres fl n s crd st I).
 Qed.
 
-Lemma related_pres : forall n r st, Inv st -> pres st true (related n r st).
+Lemma related_pres : forall n r st, Inv st -> pres (related n r st).
 Proof.
   intros n r st I. unfold related.
   destruct (ifind n (insts st)) as [i|] eqn:F; [|apply pres_same; [exact I|discriminate]].
@@ -579,19 +593,13 @@ Proof.
   destruct (negb (ru_known r)); [apply pres_same; [exact I|discriminate]|].
   destruct (memb (ru_key r) (i_related i)); [apply pres_same; [exact I|discriminate]|].
   destruct (negb (can_subscribe (refs st) r)); [apply pres_same; [exact I|discriminate]|].
-  destruct I as [U L]. pose proof (subs_split _ _ _ U F) as S.
-  set (i2 := mkInst (i_spec i) (i_subs i) (i_related i ++ [ru_key r])%list).
-  assert (SI : forall k, cnt k (subs_of (iset n i2 (insts st)))
-                         = cnt k (subs_of (insts st)) + (if String.eqb k (ru_key r) then 1 else 0)).
-  { intro k. rewrite subs_iset, (S k). unfold inst_subs, i2. simpl. rewrite !cnt_app. simpl. lia. }
-  unfold pres, Inv, Bal, acquire. unf. simpl. split; [split|split].
+  destruct I as [U B]. pose proof (subs_split _ _ _ U F) as S.
+  unfold pres, Inv, acquire. unf. simpl. split; [split|discriminate].
   - intro n'. rewrite cnt_name_iset. destruct (String.eqb n' n); [lia|apply U].
-  - intro k. rewrite SI. specialize (L k). lia.
-  - discriminate.
-  - intros _ B k. rewrite SI, (B k). lia.
+  - intro k. rewrite subs_iset, (B k), (S k). unfold inst_subs. simpl. rewrite !cnt_app. simpl. lia.
 Qed.
 
-Lemma step_pres : forall fl st e, Inv st -> pres st (event_distinctb e) (step fl st e).
+Lemma step_pres : forall fl st e, Inv st -> pres (step fl st e).
 Proof.
   intros fl st e I. destruct e as [n l|n r]; [apply reconcile_pres|apply related_pres]; exact I.
 Qed.
@@ -606,14 +614,6 @@ Lemma Inv_run : forall fl h st, Inv st -> Inv (run fl st h).
 Proof.
   intros fl. induction h as [|e h IH]; intros st I; [exact I|].
   rewrite run_cons. apply IH. apply (step_pres fl st e I).
-Qed.
-
-Lemma Bal_run : forall fl h st, Inv st -> Bal st -> history_distinctb h = true -> Bal (run fl st h).
-Proof.
-  intros fl. induction h as [|e h IH]; intros st I B D; [exact B|].
-  simpl in D. apply andb_true_iff in D. destruct D as [D1 D2].
-  destruct (step_pres fl st e I) as [I' [_ B']].
-  rewrite run_cons. apply IH; [exact I'|exact (B' D1 B)|exact D2].
 Qed.
 
 Lemma Inv_reach : forall fl h, Inv (run fl init h).
@@ -638,46 +638,18 @@ Proof. intros fl h. apply one_per_name_iff, (Inv_reach fl h). Qed.
 
 Lemma no_double_free : forall fl h r,
   cnt r (all_subs (run fl init h)) <= cnt r (refs (run fl init h)).
-Proof. intros fl h r. apply (proj2 (Inv_reach fl h)). Qed.
+Proof.
+  intros fl h r. pose proof (proj2 (Inv_reach fl h) r) as B. unfold all_subs.
+  fold (subs_of (insts (run fl init h))). lia.
+Qed.
 
 Lemma never_panics : forall fl h e, outcome_of (step fl (run fl init h) e) <> RPanic.
 Proof. intros fl h e. apply (step_pres fl _ e (Inv_reach fl h)). Qed.
 
-Lemma one_instance_partial : forall fl h,
-  history_distinctb h = true -> C20_invb (run fl init h) = true.
+Lemma one_instance : forall fl h, C20_invb (run fl init h) = true.
 Proof.
-  intros fl h D. unfold C20_invb. rewrite one_per_name. simpl. apply balancedb_spec.
-  apply (Bal_run fl h init Inv_init Bal_init D).
-Qed.
-
-(* witnesses of the refutations *)
-Definition cex_rule (k : string) : rule := mkRule k true false true.
-Definition cex_hooks : hooks_cfg :=
-  mkHooks (HookWebhook (mkWh true None false TmoUnset EtagUnset)) HookAbsent HookAbsent.
-Definition cex_leak_spec : spec :=
-  mkSpec 1 [cex_rule "things.ctl.example.com/v1"] [cex_rule "pods.v1"; cex_rule "pods.v1"] (Some cex_hooks).
-Definition cex_leak_fail_spec : spec :=
-  mkSpec 2 [cex_rule "things.ctl.example.com/v1"]
-         [cex_rule "pods.v1"; cex_rule "pods.v1"; mkRule "gizmos.v1" false false true] (Some cex_hooks).
-Definition cex_fs_spec (id : Z) : spec :=
-  mkSpec id [cex_rule "things.ctl.example.com/v1"] [cex_rule "pods.v1"] (Some cex_hooks).
-
-Lemma one_instance_cex : ~ (forall fl h, C20_invb (run fl init h) = true).
-Proof.
-  intro H.
-  specialize (H Composite [Reconcile "c" (LFound cex_leak_spec CrdOk); Reconcile "c" LNotFound]).
-  vm_compute in H. discriminate.
-Qed.
-
-(* with a CRD that passes, the step is reconcileXController *)
-Lemma step_passes : forall fl st n s crd, crd_passesb fl crd = true ->
-  step fl st (Reconcile n (LFound s crd)) = reconcile_controller fl n s st.
-Proof. intros [|] st n s [| | |] C; try discriminate; reflexivity. Qed.
-
-Lemma step_blocked : forall fl st n s crd, crd_passesb fl crd = false ->
-  exists o, step fl st (Reconcile n (LFound s crd)) = (st, o, []) /\ o <> RPanic.
-Proof.
-  intros [|] st n s [| | |] C; try discriminate; simpl; eexists; (split; [reflexivity|discriminate]).
+  intros fl h. unfold C20_invb. rewrite one_per_name. simpl. apply balancedb_spec.
+  exact (proj2 (Inv_reach fl h)).
 Qed.
 
 Lemma noop_on_equal_spec : forall fl st n s crd i,
@@ -685,10 +657,10 @@ Lemma noop_on_equal_spec : forall fl st n s crd i,
   let r := step fl st (Reconcile n (LFound s crd)) in
   state_of r = st /\ actions_of r = [] /\ (crd_passesb fl crd = true -> outcome_of r = ROk).
 Proof.
-  intros fl st n s crd i F E. cbv zeta.
+  intros fl st n s crd i F E. cbv zeta. pose proof (sic_equal _ _ _ _ F E) as H.
   destruct (crd_passesb fl crd) eqn:C.
-  - rewrite (step_passes _ _ _ _ _ C). unfold reconcile_controller. rewrite F, E. unf. simpl. auto.
-  - destruct (step_blocked fl st n s crd C) as [o [R _]]. rewrite R. unf. simpl.
+  - rewrite (step_passes _ _ _ _ _ _ _ C H), F. unf. simpl. auto.
+  - destruct (step_blocked _ _ _ _ _ _ _ C H) as [o [R _]]. rewrite R. unf. simpl.
     split; [reflexivity|]. split; [reflexivity|discriminate].
 Qed.
 
@@ -717,11 +689,12 @@ Lemma restart_on_change : forall fl st n s crd i f,
     actions_of r = [Stopped n (s_id (i_spec i)); Started n (s_id s)].
 Proof.
   intros fl st n s crd i f F E C Hf S. cbv zeta.
-  rewrite (step_passes _ _ _ _ _ C). unfold reconcile_controller. rewrite F, E, Hf.
+  rewrite (step_passes _ _ _ _ _ _ _ C (sic_changed _ _ _ _ _ F E Hf)).
+  cbn [insts]. rewrite ifind_iremove_same.
   unfold start_into. cbn [refs insts]. unfold startableb in S.
-  destruct (start_post_holds fl s f) as [_ [_ [P3 _]]].
+  destruct (start_post_holds fl s f) as [_ [P3 _]].
   destruct (start fl s f) as [g [i'| |]]; simpl in S; try discriminate.
-  destruct (P3 i' eq_refl) as [Hs [Hr _]]. exists i'.
+  destruct (P3 i' eq_refl) as [Hs Hr]. exists i'.
   assert (EI : iset n i' (iremove n (insts st)) = iset n i' (insts st)).
   { unfold iset. rewrite iremove_idem. reflexivity. }
   unf. simpl. rewrite EI.
@@ -733,12 +706,18 @@ Proof.
 Qed.
 
 Lemma start_counts : forall fl s f g i r,
-  spec_distinctb s = true -> start fl s f = (g, Ok i) ->
-  cnt r g = cnt r f + cnt r (inst_subs i).
+  start fl s f = (g, Ok i) -> cnt r g = cnt r f + cnt r (inst_subs i).
 Proof.
-  intros fl s f g i r D St. destruct (start_post_holds fl s f) as [_ [_ [P3 P4]]].
-  rewrite St in P3, P4. simpl in P3, P4. destruct (P3 i eq_refl) as [_ [Hr _]].
-  rewrite (P4 D r). unfold inst_subs. rewrite Hr, app_nil_r. reflexivity.
+  intros fl s f g i r St. destruct (start_post_holds fl s f) as [_ [P3 P4]].
+  rewrite St in P3, P4. simpl in P3, P4. destruct (P3 i eq_refl) as [_ Hr].
+  rewrite (P4 r). unfold inst_subs. rewrite Hr, app_nil_r. reflexivity.
+Qed.
+
+Lemma failed_start_counts : forall fl s f g r,
+  start fl s f = (g, Err) -> cnt r g = cnt r f.
+Proof.
+  intros fl s f g r St. destruct (start_post_holds fl s f) as [_ [_ P4]].
+  rewrite St in P4. simpl in P4. rewrite (P4 r). lia.
 Qed.
 
 Lemma stop_releases_gen : forall fl st n, Inv st ->
@@ -811,17 +790,17 @@ Proof.
     destruct H as [i2 [Hi2 Hc2]]. apply (IH _ i2 F Hi2 Hc2).
 Qed.
 
-Lemma create_absent : forall fl n s st,
-  ifind n (insts st) = None -> spec_distinctb s = true ->
-  let st1 := state_of (reconcile_controller fl n s st) in
+Lemma create_absent : forall fl n s st acts,
+  ifind n (insts st) = None ->
+  let st1 := state_of (start_into fl n s st acts) in
   (insts st1 = insts st /\ forall k, cnt k (refs st1) = cnt k (refs st)) \/
   (exists i, insts st1 = (insts st ++ [(n, i)])%list /\
              forall k, cnt k (refs st1) = cnt k (refs st) + cnt k (inst_subs i)).
 Proof.
-  intros fl n s st F D. cbv zeta. unfold reconcile_controller, start_into. rewrite F. unf.
-  destruct (start_post_holds fl s (refs st)) as [_ [_ [P3 P4]]]. specialize (P4 D).
+  intros fl n s st acts F. cbv zeta. unfold start_into. unf.
+  destruct (start_post_holds fl s (refs st)) as [_ [P3 P4]].
   destruct (start fl s (refs st)) as [g [i| |]]; simpl in *.
-  - right. exists i. destruct (P3 i eq_refl) as [_ [Hr _]].
+  - right. exists i. destruct (P3 i eq_refl) as [_ Hr].
     split; [apply iset_fresh; exact F|]. intro k. rewrite P4. unfold inst_subs.
     rewrite Hr, app_nil_r. reflexivity.
   - left. split; [reflexivity|]. intro k. rewrite P4. lia.
@@ -829,18 +808,19 @@ Proof.
 Qed.
 
 Lemma lifetime_gen : forall fl st n s crd rs,
-  ifind n (insts st) = None -> spec_distinctb s = true ->
+  ifind n (insts st) = None ->
   let st' := run fl st (lifetime n s crd rs) in
   insts st' = insts st /\ (forall k, cnt k (refs st') = cnt k (refs st)).
 Proof.
-  intros fl st n s crd rs F D. cbv zeta. unfold lifetime. rewrite run_cons, run_app.
+  intros fl st n s crd rs F. cbv zeta. unfold lifetime. rewrite run_cons, run_app.
   set (st1 := step_state fl st (Reconcile n (LFound s crd))).
   assert (H1 : (insts st1 = insts st /\ forall k, cnt k (refs st1) = cnt k (refs st)) \/
                (exists i, insts st1 = (insts st ++ [(n, i)])%list /\
                           forall k, cnt k (refs st1) = cnt k (refs st) + cnt k (inst_subs i))).
-  { subst st1. unfold step_state. destruct (crd_passesb fl crd) eqn:C.
-    - rewrite (step_passes _ _ _ _ _ C). apply create_absent; assumption.
-    - destruct (step_blocked fl st n s crd C) as [o [R _]]. rewrite R. left. simpl. auto. }
+  { subst st1. unfold step_state. pose proof (sic_absent n s st F) as H.
+    destruct (crd_passesb fl crd) eqn:C.
+    - rewrite (step_passes _ _ _ _ _ _ _ C H), F. apply create_absent. exact F.
+    - destruct (step_blocked _ _ _ _ _ _ _ C H) as [o [R _]]. rewrite R. left. simpl. auto. }
   destruct H1 as [[Hi Hc]|[i [Hi Hc]]].
   - assert (F1 : ifind n (insts st1) = None) by (rewrite Hi; exact F).
     rewrite (run_related_absent _ _ _ _ F1). unfold run. simpl. unfold step_state. simpl.
@@ -862,11 +842,11 @@ Qed.
 
 Lemma lifetime_is_identity : forall fl h n s crd rs,
   let st := run fl init h in
-  runningb n st = false -> spec_distinctb s = true ->
+  runningb n st = false ->
   let st' := run fl st (lifetime n s crd rs) in
   insts st' = insts st /\ (forall k, cnt k (refs st') = cnt k (refs st)).
 Proof.
-  intros fl h n s crd rs st R D. apply lifetime_gen; [|exact D].
+  intros fl h n s crd rs st R. apply lifetime_gen.
   unfold runningb in R. destruct (ifind n (insts st)); [discriminate|reflexivity].
 Qed.
 
@@ -879,19 +859,20 @@ Lemma bad_config_gen : forall fl st n s crd,
   actions_of r = [] /\
   outcome_of r <> RPanic /\
   (crd_passesb fl crd = true -> outcome_of r = RErr) /\
-  (spec_distinctb s = true -> forall k, cnt k (refs (state_of r)) = cnt k (refs st)).
+  (forall k, cnt k (refs (state_of r)) = cnt k (refs st)).
 Proof.
   intros fl st n s crd R S. cbv zeta. unfold runningb in R.
   destruct (ifind n (insts st)) as [i|] eqn:F; [discriminate|].
+  pose proof (sic_absent n s st F) as H.
   destruct (crd_passesb fl crd) eqn:C.
-  - rewrite (step_passes _ _ _ _ _ C). unfold reconcile_controller, start_into. rewrite F.
-    unfold startableb in S. destruct (start_post_holds fl s (refs st)) as [P1 [_ [_ P4]]]. unf.
+  - rewrite (step_passes _ _ _ _ _ _ _ C H), F. unfold start_into.
+    unfold startableb in S. destruct (start_post_holds fl s (refs st)) as [P1 [_ P4]]. unf.
     destruct (start fl s (refs st)) as [g [i| |]]; simpl in *; [discriminate| |congruence].
     split; [reflexivity|]. split; [reflexivity|]. split; [discriminate|]. split; [reflexivity|].
-    intros D k. rewrite (P4 D k). lia.
-  - destruct (step_blocked fl st n s crd C) as [o [E O]]. rewrite E. unf. simpl.
+    intro k. rewrite (P4 k). lia.
+  - destruct (step_blocked _ _ _ _ _ _ _ C H) as [o [E O]]. rewrite E. unf. simpl.
     split; [reflexivity|]. split; [reflexivity|]. split; [exact O|]. split; [discriminate|].
-    intros _ k. reflexivity.
+    intro k. reflexivity.
 Qed.
 
 Lemma bad_config_nothing_running : forall fl h n s crd,
@@ -902,98 +883,101 @@ Lemma bad_config_nothing_running : forall fl h n s crd,
   actions_of r = [] /\
   outcome_of r <> RPanic /\
   (crd_passesb fl crd = true -> outcome_of r = RErr) /\
-  (spec_distinctb s = true -> forall k, cnt k (refs (state_of r)) = cnt k (refs st)).
+  (forall k, cnt k (refs (state_of r)) = cnt k (refs st)).
 Proof. intros fl h n s crd st. apply bad_config_gen. Qed.
 
-Lemma bad_crd_nothing_started : forall st n s crd,
+Lemma bad_crd_nothing_started : forall h n s crd,
   crd_passesb Composite crd = false ->
+  let st := run Composite init h in
   let r := step Composite st (Reconcile n (LFound s crd)) in
-  state_of r = st /\ actions_of r = [] /\ outcome_of r <> RPanic.
+  outcome_of r <> RPanic /\
+  (forall id, ~ In (Started n id) (actions_of r)) /\
+  (runningb n (state_of r) = true ->
+     state_of r = st /\ actions_of r = [] /\
+     exists i, ifind n (insts st) = Some i /\ spec_eqb s (i_spec i) = true).
 Proof.
-  intros st n s crd C. cbv zeta. destruct (step_blocked Composite st n s crd C) as [o [E O]].
-  rewrite E. unf. simpl. auto.
-Qed.
-
-Lemma bad_config_leak_cex :
-  ~ (forall fl h n s crd, let st := run fl init h in
-       runningb n st = false -> startableb fl s (refs st) = false ->
-       forall k, cnt k (refs (state_of (step fl st (Reconcile n (LFound s crd))))) = cnt k (refs st)).
-Proof.
-  intro H.
-  specialize (H Composite [] "c" cex_leak_fail_spec CrdOk eq_refl eq_refl "pods.v1").
-  vm_compute in H. discriminate.
+  intros h n s crd C st. cbv zeta.
+  destruct (sic_some n s st (Inv_reach Composite h)) as [st1 [acts [H _]]].
+  destruct (step_blocked _ _ _ _ _ _ _ C H) as [o [E O]]. rewrite E. unf. simpl.
+  split; [exact O|]. unfold runningb.
+  destruct (sic_cases _ _ _ _ _ H) as [[-> [-> F]]|[[-> [-> [i [F Eq]]]]|[i [f [_ [_ [_ [-> ->]]]]]]]].
+  - split; [intros id []|]. rewrite F. discriminate.
+  - split; [intros id []|]. intros _. split; [reflexivity|]. split; [reflexivity|]. eauto.
+  - split.
+    + intros id [J|[]]. discriminate.
+    + simpl. rewrite ifind_iremove_same. discriminate.
 Qed.
 
 Lemma bad_update_gen : forall fl st n s crd i f,
-  ifind n (insts st) = Some i -> spec_eqb s (i_spec i) = false -> crd_passesb fl crd = true ->
-  stop i (refs st) = Some f -> startableb fl s f = false ->
+  ifind n (insts st) = Some i -> spec_eqb s (i_spec i) = false ->
+  stop i (refs st) = Some f ->
+  crd_passesb fl crd = false \/ startableb fl s f = false ->
   let r := step fl st (Reconcile n (LFound s crd)) in
-  outcome_of r = RErr /\
+  outcome_of r <> RPanic /\
+  (crd_passesb fl crd = true -> outcome_of r = RErr) /\
   runningb n (state_of r) = false /\
   insts (state_of r) = iremove n (insts st) /\
   actions_of r = [Stopped n (s_id (i_spec i))] /\
-  (spec_distinctb s = true -> forall k, cnt k (refs (state_of r)) = cnt k f).
+  (forall k, cnt k (refs (state_of r)) = cnt k f).
 Proof.
-  intros fl st n s crd i f F E C Hf S. cbv zeta.
-  rewrite (step_passes _ _ _ _ _ C). unfold reconcile_controller. rewrite F, E, Hf.
-  unfold start_into. cbn [refs insts]. unfold startableb in S.
-  destruct (start_post_holds fl s f) as [P1 [_ [_ P4]]]. unf.
-  destruct (start fl s f) as [g [i'| |]]; simpl in *; [discriminate| |congruence].
-  split; [reflexivity|]. split.
+  intros fl st n s crd i f F E Hf D. cbv zeta.
+  pose proof (sic_changed _ _ _ _ _ F E Hf) as H.
+  assert (R : runningb n (mkState (iremove n (insts st)) f) = false).
   { unfold runningb. simpl. rewrite ifind_iremove_same. reflexivity. }
-  split; [reflexivity|]. split; [reflexivity|]. intros D k. rewrite (P4 D k). lia.
+  destruct (crd_passesb fl crd) eqn:C.
+  - destruct D as [D|S]; [discriminate|].
+    rewrite (step_passes _ _ _ _ _ _ _ C H). cbn [insts]. rewrite ifind_iremove_same.
+    unfold start_into. cbn [refs insts]. unfold startableb in S.
+    destruct (start_post_holds fl s f) as [P1 [_ P4]]. unf.
+    destruct (start fl s f) as [g [i'| |]]; simpl in *; [discriminate| |congruence].
+    split; [discriminate|]. split; [reflexivity|]. split; [exact R|].
+    split; [reflexivity|]. split; [reflexivity|]. intro k. rewrite (P4 k). lia.
+  - destruct (step_blocked _ _ _ _ _ _ _ C H) as [o [Eo O]]. rewrite Eo. unf. simpl.
+    split; [exact O|]. split; [discriminate|]. split; [exact R|].
+    split; [reflexivity|]. split; reflexivity.
 Qed.
 
 Lemma bad_update_stops_old : forall fl h n s crd i f,
   let st := run fl init h in
-  ifind n (insts st) = Some i -> spec_eqb s (i_spec i) = false -> crd_passesb fl crd = true ->
-  stop i (refs st) = Some f -> startableb fl s f = false ->
+  ifind n (insts st) = Some i -> spec_eqb s (i_spec i) = false ->
+  stop i (refs st) = Some f ->
+  crd_passesb fl crd = false \/ startableb fl s f = false ->
   let r := step fl st (Reconcile n (LFound s crd)) in
-  outcome_of r = RErr /\
+  outcome_of r <> RPanic /\
+  (crd_passesb fl crd = true -> outcome_of r = RErr) /\
   runningb n (state_of r) = false /\
   insts (state_of r) = iremove n (insts st) /\
   actions_of r = [Stopped n (s_id (i_spec i))] /\
-  (spec_distinctb s = true -> forall k, cnt k (refs (state_of r)) = cnt k f).
+  (forall k, cnt k (refs (state_of r)) = cnt k f).
 Proof. intros fl h n s crd i f st. apply bad_update_gen. Qed.
 
 (* ---- what runs follows the spec ------------------------------------------------------ *)
-
-Lemma follows_spec_cex :
-  ~ (forall fl h n s crd,
-       follows_specb n s (state_of (step fl (run fl init h) (Reconcile n (LFound s crd)))) = true).
-Proof.
-  intro H.
-  specialize (H Composite [Reconcile "c" (LFound (cex_fs_spec 1) CrdOk)] "c" (cex_fs_spec 2) CrdNoStatus).
-  vm_compute in H. discriminate.
-Qed.
 
 Lemma start_into_follows : forall fl n s st acts, ifind n (insts st) = None ->
   follows_specb n s (state_of (start_into fl n s st acts)) = true.
 Proof.
   intros fl n s st acts F. unfold follows_specb, start_into. unf.
-  destruct (start_post_holds fl s (refs st)) as [_ [_ [P3 _]]].
+  destruct (start_post_holds fl s (refs st)) as [_ [P3 _]].
   destruct (start fl s (refs st)) as [g [i| |]]; simpl in *.
   - rewrite ifind_iset_same. destruct (P3 i eq_refl) as [Hs _]. rewrite Hs. apply spec_eqb_refl.
   - rewrite F. reflexivity.
   - rewrite F. reflexivity.
 Qed.
 
-Lemma follows_spec_partial : forall fl st n s crd,
-  crd_passesb fl crd = true ->
+Lemma follows_spec_any_state : forall fl st n s crd,
   outcome_of (step fl st (Reconcile n (LFound s crd))) <> RPanic ->
   follows_specb n s (state_of (step fl st (Reconcile n (LFound s crd)))) = true.
 Proof.
-  intros fl st n s crd C. rewrite (step_passes _ _ _ _ _ C). unfold reconcile_controller. unf.
-  destruct (ifind n (insts st)) as [i|] eqn:F.
-  - destruct (spec_eqb s (i_spec i)) eqn:E.
-    + intros _. unfold follows_specb. simpl. rewrite F. apply spec_eqb_sym. exact E.
-    + destruct (stop i (refs st)) as [f|]; [|simpl; congruence].
-      intros _. apply start_into_follows. simpl. apply ifind_iremove_same.
-  - intros _. apply start_into_follows. exact F.
+  intros fl st n s crd. destruct (stop_if_changed n s st) as [[st1 acts]|] eqn:H.
+  - intros _. pose proof (sic_follows _ _ _ _ _ H) as Fo.
+    destruct (crd_passesb fl crd) eqn:C.
+    + rewrite (step_passes _ _ _ _ _ _ _ C H). destruct (ifind n (insts st1)) eqn:F1.
+      * exact Fo.
+      * apply start_into_follows. exact F1.
+    + destruct (step_blocked _ _ _ _ _ _ _ C H) as [o [E _]]. rewrite E. exact Fo.
+  - rewrite (step_sic_none _ _ _ _ _ H). unf. simpl. congruence.
 Qed.
 
-Lemma follows_spec_decorator : forall h n s crd,
-  follows_specb n s (state_of (step Decorator (run Decorator init h) (Reconcile n (LFound s crd)))) = true.
-Proof.
-  intros h n s crd. apply follows_spec_partial; [reflexivity|apply never_panics].
-Qed.
+Lemma follows_spec : forall fl h n s crd,
+  follows_specb n s (state_of (step fl (run fl init h) (Reconcile n (LFound s crd)))) = true.
+Proof. intros fl h n s crd. apply follows_spec_any_state, never_panics. Qed.
